@@ -73,6 +73,24 @@ CATALOGUE = {
 KINDS = list(CATALOGUE)
 
 
+def negzero(el, which):
+    """the element with every zero x ('x'), y ('y') or both ('xy') coordinate written -0.0
+    (IEEE: -0.0 == 0.0; the model sees the integer 0 either way)"""
+    if el is None:
+        return None
+    if el and isinstance(el[0], (list, tuple)):
+        return [negzero(e, which) for e in el]
+    out = []
+    for i, c in enumerate(el):
+        axis = 'x' if i % 2 == 0 else 'y'
+        out.append(-0.0 if (c == 0 and axis in which) else c)
+    return out
+
+
+def has_zero(el):
+    return el is not None and any(c == 0 for c in G.flat_coords(el))
+
+
 def rand_points(rng, n, lo=-1, hi=6, missing_p=0.15, dup_p=0.25):
     out = []
     for _ in range(n):
@@ -548,8 +566,25 @@ def gen_cases(rep, tier):
         meta = rng.choice(META) if rng.random() < 0.9 else rng.choice(META_FINDINGS)
         lsub = rng.choice(SUBS)
         rsub = 'float64' if kind == 'point' else rng.choice(SUBS)
+        if lsub.startswith('float') and rng.random() < 0.3:
+            le = [negzero(p, rng.choice(['x', 'y', 'xy'])) for p in le]
+        if rsub.startswith('float') and rng.random() < 0.3:
+            ri = [negzero(e, rng.choice(['x', 'y', 'xy'])) for e in ri]
         hows = HOW3 if not quick else [rng.choice(HOW3)]
         yield (*make_specs(meta, le, lsub, kind, ri, rsub), hows, meta)
+    # (F) signed zeros: coinciding points / vertices / segment end points / polygon vertices whose
+    #     zero coordinate is -0.0 on one side and +0.0 on the other (x, y, both; float64, float32)
+    zleft = [[0, 0], [0, 2], [2, 0], [4, 4], None, [0, 0], [1, 1], [0, 4], [4, 0], [2, 2], [0, 1], [3, 0]]
+    modes = [('x', ''), ('y', ''), ('xy', ''), ('', 'x'), ('', 'y'), ('', 'xy'), ('x', 'y'), ('xy', 'xy')]
+    for kind in KINDS:
+        zs = [e for e in CATALOGUE[kind] if has_zero(e)][:5]
+        for (lw, rw), sub in itertools.product(modes, ['float64', 'float32']):
+            le = [negzero(p, lw) for p in zleft]
+            ri = [negzero(e, rw) for e in zs] + [None]
+            meta = META_GEOM[k % len(META_GEOM)]
+            k += 1
+            hows = HOW3 if (not quick or k % 4 == 0) else [HOW3[k % 3]]
+            yield (*make_specs(meta, le, sub, kind, ri, sub), hows, ('signed-zero', lw, rw, sub))
     # (E) polygons whose rings are not closed: compared with the model only (the scalar
     #     Point.intersects may report a hit outside the bounding box there)
     for ring in ([0, 0, 0, 2], [0, 0, 4, 0, 4, 4], [1, 1, 3, 1, 3, 3, 1, 3]):
